@@ -162,7 +162,7 @@ type PathEnd struct{}
 
 func Reach(id string) { Res.Reached = append(Res.Reached, id) }
 func Tag(t string)    { Res.Tags = append(Res.Tags, t) }
-func Note(s string)   {}
+func Note(s string)   { Res.Notes["note"] += s + "; " }
 
 func And(xs ...bool) bool {
 	for _, x := range xs {
